@@ -1,0 +1,7 @@
+//go:build !verif
+// +build !verif
+
+package core
+
+// verifObservePlan is a no-op unless built with the verif tag.
+func verifObservePlan(plan []runAction) {}
